@@ -67,7 +67,7 @@ where
         let name = name.to_string();
         std::thread::spawn(move || {
             while !done.load(Ordering::Relaxed) {
-                std::thread::sleep(Duration::from_millis(500));
+                std::thread::sleep(Duration::from_millis(25));
                 for s in slots.iter() {
                     if let Some((t, case)) = &*s.started.lock().unwrap() {
                         if t.elapsed() > Duration::from_secs(HANG_SECS) {
